@@ -50,10 +50,10 @@ CHECK_DEADLOCK FALSE
 
 TR_CONSTS = """SPECIFICATION TSpec
 CONSTANTS
-  NAdd <- BigAdd
-  NSub <- BigSub
-  NLt <- BigLt
-  NOf <- BigOf
+  NAdd <- DigAdd
+  NSub <- DigSub
+  NLt <- DigLt
+  NOf <- DigOf
   NCap <- BigCap32
   MatchRule = "identity"
   Slots <- TSlots
@@ -116,7 +116,7 @@ def hh_cols(W, D, L, ident):
     for r in range(D):
         nz = np.flatnonzero(probe.lhh_count[r])
         if len(nz) != 1:
-            raise MachineryError("probe heavy-hitter row %d has %d non-zero cells" % (r, len(nz)))
+            raise common.ImplMisbehaved("one add to an empty probe heavy-hitter sketch left %d non-zero cells in row %d" % (len(nz), r))
         cols.append(int(nz[0]) + 1)
     return cols
 
@@ -202,6 +202,8 @@ class HHRecorder:
         self.emit({"ev": "update_ngram", "s": s + 1, "keys": [kb(k) for k in keys], "n": n})
 
     def merge(self, s, t):
+        if int(self.slots[s].n_added_records[0]) + int(self.slots[t].n_added_records[0]) >= 2**62:
+            return                       # uint64 bookkeeping would wrap: outside every property's range
         try:
             self.slots[s].merge(self.slots[t])
         except TypeError as exc:
